@@ -114,7 +114,7 @@ CLAIMED = {
              "C08_histories_balanced). Tie: the real xcm.c over a scripted xpoll/transport with a ledger vs the compiled model. The "
              "transports' own paths are covered by sys_life: every resource-creating system call of a full scenario on all seven "
              "transports fails in turn (exhaustive over the call index), with descriptor ledger, stray-close detection, file and heap "
-             "checks, plus fork + xcm_cleanup and control-client scenarios.",
+             "checks, plus fork + xcm_cleanup and control-client scenarios. Cleanup locality: sys_life FORK compares the kernel-side epoll interest set of every owner socket (/proc/self/fdinfo) before the fork and after the child\'s xcm_cleanup, with control clients attached and a peer-closed connection in the set (found F-08f, fixed in /repo 10ab003); at the source level the table Generated/Owner.lean (every shared-object call inside a function with an owner parameter, regenerated on every run) satisfies C08_cleanup_sites_guarded and C08_cleanup_delegations_pass_owner.",
         note="Proved: the core ladders relative to the transport contract of xcm_tp.h, and the ladders of xcm_tp_utls.c over its two "
              "sub-sockets (C08_utls_init/connect/server/accept/close_balanced: for every answer of the sub-transports the contract 'close "
              "what holds resources, only destroy what failed, never use a dead socket' is kept and a failed call holds nothing; unit_utls). "
